@@ -151,11 +151,12 @@ static void check_pass(const char *when) {
         vfail("EV.pass", "EV.pass|not-started", "%s is still IDLE after %s although its evaluation callback is %s", MD[s].name, when, MD[s].evalmode ? "returning true" : "absent");
 }
 
+static int replacing_now;      /* a module is being replaced (M_MOD_ALLOW_REPLACE): its successor goes in right away, so the context is not released for being empty in between */
 static void set_zombie(int s) {
     MD[s].present = 0; MD[s].st = S_ZOMBIE; MD[s].h = NULL; mt_del_all(s);
     memset(MD[s].armed, 0, sizeof MD[s].armed);
     if (in_pass) CX.pass_changed = 1;
-    if (CX.exists && !CX.persist && !CX.looping && n_present() == 0) { CX.exists = 0; TRACE("context auto-released"); }
+    if (CX.exists && !CX.persist && !CX.looping && n_present() == 0 && !replacing_now) { CX.exists = 0; TRACE("context auto-released"); }
 }
 static void teardown_zombie(int s) {   /* context teardown: this module has been stopped and is a ZOMBIE from now on */
     MD[s].present = 0; MD[s].st = S_ZOMBIE; if (MD[s].h) { MD[s].extra++; MD[s].h = NULL; } mt_del_all(s); memset(MD[s].armed, 0, sizeof MD[s].armed);
